@@ -50,3 +50,13 @@ reg('C19', 'static analysis: provenance of the per-class auto_persist set, membe
     'writer/reader key-path agreement of the meta helpers, error-type discipline of load_object, dispatch over future states',
     'For every Savable shape and loader configuration: tags written are the tags reversed, the loader recorded is found and used as an instance, precedence is '
     'context > saved state > default, unknown classes are ValueError, futures have a branch per state. Value round trip through deepcopy is not decided.', NOTE)
+
+reg('C03', 'static analysis: inter-procedural exception-containment analysis over the resolved call graph (first containing handler / capture_exceptions '
+    'on every upward call chain from every uncontrolled call site, with sink classification and task-boundary roots), finally-pairing of '
+    'flags, must-facts on the construction re-raise, provenance of the EXCEPTED state payload',
+    'For every hook / user function and every occurrence: no exception raised by uncontrolled code can reach a coroutine or done-callback plumpy hands to the '
+    'loop, each kind of user code is caught first by the sink the property names, flags are reset on every exit, failure states carry exactly the caught exception.', NOTE)
+reg('C18', 'static analysis: push/pop pairing of the process-scope context manager on its CFG, ownership of the context variable, scope reachability '
+    'over upward call chains from every uncontrolled call site that runs process code',
+    'For every interleaving: which user code of a process can run without a "with _process_scope()" on its call chain is a call-graph fact. Assumes per-task '
+    'copies of context variables.', NOTE)
